@@ -98,6 +98,19 @@ def run_case(case, rec, lowered=True):
         finally:
             C._RECURSION_THRESHOLD = old
 
+    # the same expression object compiled again for another order of the same variables
+    if len(V) >= 2:
+        V2 = list(reversed(V)) if len(V) == 2 else V[1:] + V[:1]
+        pt = case["points"][0]
+        try:
+            got2 = _scalar(C.compile_expression(e, b.variables(V2))(B.point_array(V2, pt)))
+            want2, t2 = R.ref_value(D, node, pt)
+            rec.cmp(1, cell)
+            if not close(got2, want2, RTOL, t2.mag)[0]:
+                bad("compile-second-variable-order", "mismatch", pt, got2, want2)
+        except Exception as ex:
+            bad("compile-second-variable-order", "raises:" + type(ex).__name__, pt, ex=ex)
+
     nbad = {}
     worst = {}
     for pt in case["points"]:
